@@ -12,7 +12,9 @@ import (
 	"fmt"
 	"runtime"
 	"runtime/debug"
+	"strings"
 	"sync"
+	"sync/atomic"
 	"time"
 
 	"github.com/whatap/golib/lang/pack"
@@ -322,6 +324,114 @@ func runSendDirect(c *vlib.Ctx, section string, r *vlib.Rand, useDefaults bool) 
 
 // ---- through the queue, background goroutine running -------------------------------------------
 
+// hookGrace is how long a scenario waits for the sender's loop to observe its context before it
+// falls back to the priming record. It selects a mechanism, never a verdict.
+const hookGrace = 2 * time.Second
+
+// primeAlways: an earlier scenario of this process found that the sender's loop does not touch
+// its context before it waits for records; later scenarios put the priming record at once.
+var primeAlways bool
+
+type queueSender struct {
+	s    *zip.ZipSendProxyThread
+	hc   *hookCtx
+	t0   time.Time
+	stop func() bool
+}
+
+// primeRecord is larger than the built-in buffer limit: appended under the defaults it is
+// flushed at once, alone, by the sender's goroutine.
+func primeRecord(prod int) *recSpec {
+	sp := &recSpec{ID: fmt.Sprintf("r%d.0", prod), Prod: prod, Time: baseTime}
+	sp.Content = sp.ID + "|" + strings.Repeat("priming record 0123456789 ", (builtin.Buf+2000)/26)
+	return sp
+}
+
+// startQueueSender creates the sender with the queue and the background goroutine. The settings
+// are read and the configuration is applied BY THE SENDER'S OWN GOROUTINE, so that the monitor
+// introduces no unsynchronised access: in the first call its loop makes on its context (Done,
+// Err, Deadline or Value, whichever it uses), or — when no such call is seen — inside the
+// hand-over of a priming record that the goroutine flushes under the defaults (that record and
+// its pack are part of the scenario: the defaults are the settings in force for them).
+func startQueueSender(c *vlib.Ctx, caseID string, sc *scenario, client *recClient, st settings, configured bool, primeProd int) *queueSender {
+	var vs0, vs1 settings
+	conf := newConf(st.vals())
+	hc := newHookCtx(func() {
+		s := zip.GetInstance()
+		vs0 = readSettings(s)
+		if configured {
+			s.ApplyConfig(conf)
+			vs1 = readSettings(s)
+		}
+	})
+	gated := client.gate != nil
+	client.hc = hc
+	client.disarm()
+	zip.VerifResetInstance()
+	base := runGoroutines()
+	q := &queueSender{hc: hc, t0: time.Now()}
+	q.s = zip.GetInstance(zip.WithTcpClient(client), zip.WithUseQueue(), zip.WithContext(hc, hc.cancel))
+	q.stop = func() bool {
+		hc.cancel()
+		return waitUntil(watchdog, func() bool { return runGoroutines() <= base })
+	}
+	grace := hookGrace
+	if primeAlways {
+		grace = 0
+	}
+	var prime *recSpec
+	if !hc.waitApplied(grace) {
+		prime = primeRecord(primeProd)
+		q.s.Add(prime.build())
+		c.Count("priming_records_put", 1)
+		if !hc.waitApplied(watchdog) {
+			c.Inconclusive(caseID, "the background goroutine neither observed its context nor handed the priming record over within the watchdog")
+			if gated {
+				close(client.gate)
+			}
+			q.stop()
+			return nil
+		}
+	}
+	c.SetAdd("settings_applied_on_sender_goroutine_via", hc.via)
+	sc.checkDefaults(vs0)
+	if configured {
+		sc.checkApplied(vs1, st)
+		c.Count("applyconfig_calls", 1)
+	}
+	switch {
+	case prime != nil && hc.via == "SendFlush":
+		// packed under the defaults, before the configuration was applied
+		primeAlways = true
+		sc.Epochs = append(sc.Epochs, epoch{builtin, false})
+		sc.hand(prime)
+		if configured {
+			sc.Epochs = append(sc.Epochs, epoch{st, true})
+		}
+	case prime != nil:
+		// the loop observed its context after all, before it took the priming record: an
+		// ordinary first record under the settings of the scenario
+		sc.Epochs = append(sc.Epochs, epoch{st, configured})
+		sc.hand(prime)
+		// it must have left the queue (capacity) and, where the first hand-over is gated, have
+		// been handed over before the scenario's own records are put
+		if !waitUntil(watchdog, func() bool { return queueLen(q.s.Queue) == 0 && (!gated || client.count() > 0) }) {
+			c.Inconclusive(caseID, "the priming record was not taken within the watchdog")
+			if gated {
+				close(client.gate)
+			}
+			q.stop()
+			return nil
+		}
+	default:
+		sc.Epochs = append(sc.Epochs, epoch{st, configured})
+	}
+	if gated {
+		client.arm()
+	}
+	return q
+}
+
 // kind: "config" (settings applied), "defaults" (nothing applied), "capacity" (the client
 // blocks the first hand-over while a burst larger than the queue is put).
 func runQueue(c *vlib.Ctx, section string, idx int, r *vlib.Rand, kind string) {
@@ -363,39 +473,11 @@ func runQueue(c *vlib.Ctx, section string, idx int, r *vlib.Rand, kind string) {
 	sc.Desc["producers"] = nprod
 	c.SetAdd("gomaxprocs", fmt.Sprint(runtime.GOMAXPROCS(0)))
 
-	// The settings are read and the configuration is applied by the sender's own goroutine (first
-	// Done() call of its loop), so that the monitor introduces no unsynchronised access.
-	var vs0, vs1 settings
-	var conf = newConf(st.vals())
-	hc := newHookCtx(func() {
-		s := zip.GetInstance()
-		vs0 = readSettings(s)
-		if configured {
-			s.ApplyConfig(conf)
-			vs1 = readSettings(s)
-		}
-	})
-	zip.VerifResetInstance()
-	base := runGoroutines()
-	t0 := time.Now()
-	s := zip.GetInstance(zip.WithTcpClient(client), zip.WithUseQueue(), zip.WithContext(hc, hc.cancel))
-	stop := func() bool {
-		hc.cancel()
-		return waitUntil(watchdog, func() bool { return runGoroutines() <= base })
-	}
-	select {
-	case <-hc.applied:
-	case <-time.After(watchdog):
-		c.Inconclusive(caseID, "the background goroutine did not start its loop within the watchdog")
-		stop()
+	q := startQueueSender(c, caseID, sc, client, st, configured, nprod)
+	if q == nil {
 		return
 	}
-	sc.checkDefaults(vs0)
-	if configured {
-		sc.checkApplied(vs1, st)
-		c.Count("applyconfig_calls", 1)
-	}
-	sc.Epochs = append(sc.Epochs, epoch{st, configured})
+	s, t0, stop := q.s, q.t0, q.stop
 
 	tBase := baseTime + int64(r.Intn(1000))
 	if capacity {
@@ -530,6 +612,169 @@ func runQueue(c *vlib.Ctx, section string, idx int, r *vlib.Rand, kind string) {
 	sc.evaluate()
 }
 
+// ---- stop while records are still buffered ------------------------------------------------------
+
+var (
+	stopBufs    = []int{1024, 4096, 16 * 1024, 64 * 1024, 1 << 20}
+	stopTimings = []string{"right-after-the-last-add", "queue-drained", "queue-drained-then-late-record",
+		"goroutine-asleep-in-queue-wait-then-late-record", "while-producers-are-adding"}
+)
+
+// runStop: small records that reach neither trigger are still buffered (or still on their way
+// through the queue) when the context is cancelled; the cancellation is placed at different
+// moments relative to the last Add / Append. After the background goroutine has ended every
+// record handed over is either emitted exactly once or still in the queue (never taken): a
+// record that the goroutine took and that was not emitted is lost.
+func runStop(c *vlib.Ctx, section string, idx int, r *vlib.Rand) {
+	caseID := fmt.Sprintf("%s#%d", section, idx)
+	mode := pickMode(r)
+	client := newRecClient(mode, false)
+	sc := newScenario(c, section, "queue", mode)
+	timing := r.Intn(len(stopTimings))
+	configured := !r.Chance(1, 8)
+	if !configured && timing == 1 {
+		timing = 0 // with the default 5 s wait an idle sender notices the cancellation only after 5 s
+	}
+	nprod := r.Range(1, 3)
+	total := r.Range(1, 40)
+	nlate := 0
+	if timing == 2 || timing == 3 {
+		nlate = r.Range(1, 3)
+	}
+	st := builtin
+	if configured {
+		st = settings{Wait: int64(r.Range(250, 900)), Buf: stopBufs[r.Intn(len(stopBufs))], ZipMin: zipMins[r.Intn(len(zipMins))],
+			Queue: total + nlate + []int{0, 1, 1000}[r.Intn(3)]}
+	}
+	old := runtime.GOMAXPROCS([]int{2, 4, 8, 16}[r.Intn(4)])
+	defer runtime.GOMAXPROCS(old)
+	sc.Desc["gomaxprocs"] = runtime.GOMAXPROCS(0)
+	sc.Desc["producers"] = nprod
+	sc.Desc["cancelled"] = stopTimings[timing]
+
+	// plan: every producer has its own clock; the span of all timestamps stays below the wait
+	// time except for a few jumps in the first half (earlier batches closed by the time trigger)
+	plans := make([][]*recSpec, nprod)
+	clocks := make([]int64, nprod)
+	seqs := make([]int, nprod)
+	tBase := baseTime + int64(r.Intn(1000))
+	tailSpan := int64(0)
+	for k := 0; k < total; k++ {
+		p := r.Intn(nprod)
+		switch {
+		case k < total/2 && r.Chance(1, 8):
+			clocks[p] += st.Wait + int64(r.Intn(3)) - 1
+		default:
+			if step := int64(r.Intn(3)); tailSpan+step < st.Wait/4 {
+				clocks[p] += step
+				tailSpan += step
+			}
+		}
+		n := contentSizes[r.Intn(len(contentSizes)-2)]
+		if r.Chance(1, 3) {
+			n = r.Intn(300)
+		}
+		sp := newSpec(r, p, seqs[p], tBase+clocks[p], n, false)
+		seqs[p]++
+		plans[p] = append(plans[p], sp)
+	}
+	var late []*recSpec
+	tLate := tBase
+	for _, cl := range clocks {
+		if tBase+cl > tLate {
+			tLate = tBase + cl
+		}
+	}
+	for k := 0; k < nlate; k++ {
+		late = append(late, newSpec(r, nprod, k, tLate+int64(k), r.Intn(120), false))
+	}
+	cancelAfter := int64(r.Range(1, total)) // timing 4: number of Adds after which the context is cancelled
+
+	q := startQueueSender(c, caseID, sc, client, st, configured, nprod+1)
+	if q == nil {
+		return
+	}
+	s := q.s
+	for p := range plans {
+		for _, sp := range plans[p] {
+			sc.hand(sp)
+		}
+	}
+	for _, sp := range late {
+		sc.hand(sp)
+		sc.late[sp.ID] = true
+	}
+	var added atomic.Int64
+	var wg sync.WaitGroup
+	for p := 0; p < nprod; p++ {
+		wg.Add(1)
+		go func(p int) {
+			defer wg.Done()
+			for k, sp := range plans[p] {
+				s.Add(sp.build())
+				added.Add(1)
+				if k%5 == 4 {
+					runtime.Gosched()
+				}
+			}
+		}(p)
+	}
+	cancelled := false
+	if timing == 4 {
+		for added.Load() < cancelAfter {
+			runtime.Gosched()
+		}
+		q.hc.cancel()
+		cancelled = true
+	}
+	wg.Wait()
+	if timing >= 1 && timing <= 3 {
+		if !waitUntil(watchdog, func() bool { return queueLen(s.Queue) == 0 }) {
+			c.Inconclusive(caseID, "the queue was not drained within the watchdog")
+			q.stop()
+			return
+		}
+	}
+	if timing == 3 {
+		// mechanism only: make it likely that the cancellation falls into the queue wait
+		asleep := false
+		for k := 0; k < 200 && !asleep; k++ {
+			if asleep = runSleepingInQueueWait(); !asleep {
+				time.Sleep(100 * time.Microsecond)
+			}
+		}
+		if asleep {
+			c.Count("cancelled_while_goroutine_seen_asleep_in_queue_wait", 1)
+		}
+	}
+	if !cancelled {
+		q.hc.cancel()
+	}
+	for _, sp := range late {
+		s.Add(sp.build())
+	}
+	if !q.stop() {
+		c.Inconclusive(caseID, "the background goroutine did not end within the watchdog after cancellation")
+		return
+	}
+	// no idle-timeout flush can have happened when the goroutine was gone sooner than the wait time
+	sc.earlyGuard = time.Since(q.t0).Milliseconds()+50 < st.Wait
+	if sc.earlyGuard {
+		c.Count("queue_scenarios_early_flush_judged", 1)
+	}
+	for _, id := range leftInQueue(s.Queue) {
+		sc.inQueue[id] = true
+	}
+	c.Count("records_left_in_queue_at_stop", int64(len(sc.inQueue)))
+	c.Count("queue_scenarios_stopped", 1)
+	c.Count("stop_scenarios", 1)
+	c.SetAdd("stop_timings", stopTimings[timing])
+	c.Count("stop_timing/"+stopTimings[timing], 1)
+	sc.hs = client.snapshot()
+	sc.describe(r)
+	sc.evaluate()
+}
+
 func main() {
 	c := vlib.Start("C16")
 	debug.SetGCPercent(400) // every pack allocates a gzip writer (~1 MB): collect less often
@@ -540,10 +785,11 @@ func main() {
 		c.Cases("senddirect-defaults", c.N(64, 1600), func(i int, r *vlib.Rand) { runSendDirect(c, "senddirect-defaults", r, true) })
 		c.Cases("senddirect-config", c.N(320, 8000), func(i int, r *vlib.Rand) { runSendDirect(c, "senddirect-config", r, false) })
 	}
-	nq, nd, nc := c.N(240, 4000), c.N(8, 64), c.N(20, 200)
+	nq, nd, nc, ns := c.N(240, 4000), c.N(8, 64), c.N(20, 200), c.N(96, 1600)
 	if race {
-		nq, nd, nc = c.N(80, 1200), c.N(4, 24), c.N(8, 60)
+		nq, nd, nc, ns = c.N(80, 1200), c.N(4, 24), c.N(8, 60), c.N(40, 480)
 	}
+	c.Cases("queue-stop", ns, func(i int, r *vlib.Rand) { runStop(c, "queue-stop", i, r) })
 	c.Cases("queue-config", nq, func(i int, r *vlib.Rand) { runQueue(c, "queue-config", i, r, "config") })
 	c.Cases("queue-capacity", nc, func(i int, r *vlib.Rand) { runQueue(c, "queue-capacity", i, r, "capacity") })
 	c.Cases("queue-defaults", nd, func(i int, r *vlib.Rand) { runQueue(c, "queue-defaults", i, r, "defaults") })
@@ -552,6 +798,7 @@ func main() {
 		c.Floor("packs", 40, c.Counter("packs"))
 		c.Floor("records_decoded_and_compared", 200, c.Counter("records_decoded_and_compared"))
 		c.Floor("queue_scenarios_stopped", 3, c.Counter("queue_scenarios_stopped"))
+		c.Floor("stop_scenarios", 2, c.Counter("stop_scenarios"))
 		if !race {
 			c.Floor("retained_packs_compared", 20, c.Counter("retained_packs_compared"))
 			c.Floor("defaults_settings_read", 20, c.Counter("defaults_settings_read"))
